@@ -109,7 +109,7 @@ def run(ctx):
     ctx.build("C07", deps=["Model/TaskGraph.v"])
     quick = ctx.tier == "quick"
     rng = ctx.rng
-    n_graphs = 180 if quick else 2500
+    n_graphs = 140 if quick else 2500
     triples = []
     mon = []           # indices of the cases the monitor applies to
     for _ in range(n_graphs):
@@ -122,7 +122,7 @@ def run(ctx):
             probs = [tasks[c][4] for c in ch[t]]
             if sum(probs) <= tg.DEN and probs[draw] > 0 and clo.py_closed(adj, tasks):
                 mon.append(len(triples) - 1)
-    n_rand = 400 if quick else 5000
+    n_rand = 300 if quick else 5000
     triples += [tg.rand_case(rng, ["notify", "notify", "resolve", "ready", "flags"]) for _ in range(n_rand)]
     ctx.rules.append("S-conditional: notify_task_completion on structured conditional/join graphs (nested conditionals, branches "
                      "of unequal length, empty branches = direct edge to the join, extra parents) in run-like states (ancestors "
